@@ -149,9 +149,9 @@ def catalogue():
   from audiolazy import x as px, gammatone, tostream, dB20, sin as lsin
   C["poly(stream)"] = S(lambda s: (px ** 2 + 2 * px + 1)(Stream(s)), lambda k: k)
   C["laurent-poly(stream)"] = S(lambda s: (px ** -1 + 3)(Stream(s) + 1), lambda k: k)
-  C["freq_response(stream)"] = S(lambda s: (1 - .5 * z ** -1).freq_response(Stream(s) * .01), lambda k: k)
+  C["freq_response(stream)"] = S(lambda s: (1 - .5 * z ** -1).freq_response(Stream(s) * .01), lambda k: k, chain=False)
   C["cascade.freq_response(stream)"] = S(lambda s: CascadeFilter(1 - z ** -1, 1 / (1 - .5 * z ** -1))
-                                         .freq_response(Stream(s) * .01 + .1), lambda k: k)
+                                         .freq_response(Stream(s) * .01 + .1), lambda k: k, chain=False)
   C["dB20(stream)"] = S(lambda s: dB20(Stream(s) + 1), lambda k: k)
   C["sin(generator)"] = S(lambda s: Stream(lsin(v for v in s)), lambda k: k)
   C["gammatone.klapuri(stream)"] = S(lambda a, b, c: gammatone.klapuri(Stream(b) * .001 + .5, Stream(c) * .001 + .1)(a),
@@ -311,7 +311,8 @@ def run_stage(case):
 def gen_chains(run):
   K = run.pick(6, 10)
   comp = [n for n, s in CAT.items() if s.chain and s.kind == "num"]
-  firsts = [n for n, s in CAT.items() if s.kind == "num" and s.exact and s.finite is None and n != "stream*list"]
+  firsts = [n for n, s in CAT.items() if s.kind == "num" and s.exact and s.finite is None and n != "stream*list"
+            and "freq_response" not in n]
   lasts = [n for n, s in CAT.items() if s.nsrc == 1 and s.exact and not s.valuedep and s.finite is None
            and (s.chain or s.kind in ("blocks", "bytes", "tuples")) and n not in ("stream*list",)]
   for a in run.rot(firsts):
